@@ -203,6 +203,8 @@ def full_def(is_async, payload, concrete, dynamic=True, ptype='Pay', data=True):
                       ('transition', [('from', ['Busy'], False), ('to', 'HalfOpen'), ('guards', [h('guards')[0]], True)])]),
         ('stop', [('transition', [('from', ['Outer', 'Launch'], True), ('to', 'Done'), ('around', [h('around')[2]], True)])]),
         ('reset', [('transition', [('from', ['Done'], False), ('to', 'Idle')])]),
+        # a source list with the leaf first and the superstate last (`stop` has them the other way round)
+        ('halt', [('transition', [('from', ['Idle', 'Outer'], True), ('to', 'Done')])]),
     ], True))
     return d
 
